@@ -88,7 +88,7 @@ func init() {
 	register(&Property{
 		ID:        "C23",
 		Patterns:  []string{"./sql/analyzer", "./sql/rowexec"},
-		Technique: "stateful CFG path exploration (go/cfg x a finite protocol state) of the trigger-executing iterators; def-use of the row variables; writer/reader agreement of row layouts read from slice/append shapes and scope constructors (go/types); placement and ordering read from the analyzer's type switches and the ordering function",
+		Technique: "stateful CFG path exploration (go/cfg x a finite protocol state) of the trigger-executing iterators; def-use of the row variables; writer/reader agreement of row layouts read from slice/append shapes and scope constructors (go/types); placement and ordering read from the analyzer's type switches and the ordering function; asymmetric case-folding scan of name comparisons",
 		Explanation: "A trigger runs because (1) analyzer.applyTriggers selects the triggers of the statement's event, orders them and wraps the DML node in plan.TriggerExecutor nodes, (2) rowexec builds a triggerIter per executor " +
 			"(and a triggerBlockIter per BEGIN…END body), which pulls one row from its child, builds and drains the trigger logic for it and hands a row on. Decided: " +
 			"(T1) once per row: in every iterator that executes trigger logic, each path to a returned row pulls exactly one child row, rules out the child's error/EOF before the logic runs and returns that error itself, " +
